@@ -33,12 +33,44 @@ claim('C18',
       'ast pattern + guard reaching-definitions with interval analysis',
       'DESIGN.md 4 (K, F), 5 C18')
 claim('C20',
-      'Decides that every certificate comparison of the rank / rank-one detectors carries a tolerance (T1). Exactness of '
-      'the span/complement and soundness of the hierarchy are value-level and NOT decided.',
+      'Decides that every certificate comparison of the rank / rank-one detectors carries a tolerance (T1), and that the '
+      'structure-class arms of get_matrix_orthogonal_basis and detect_commute_matrix keep / re-insert Gell-Mann fields '
+      'consistently: fields kept after analysis == data fields at synthesis, zeros re-inserted in the dropped block, projections '
+      'keep every data field (G2, G3). Exactness of the span/complement and soundness of the hierarchy are value-level and NOT decided.',
       'Trusted: the decision-function table; provenance of the compared value through resolved callees.',
       'ast provenance lattice on comparisons in decision functions',
       'DESIGN.md 4 (T), 5 C20')
 
+claim('C01',
+      'Decides the wrapper/functional agreement clauses for all 9 manifold modules (19 dispatch arms): forward() returns exactly the '
+      'to_* functional applied to self.theta with every hyper-parameter bound, by resolved parameter name, to the attribute that '
+      '__init__ built from the constructor argument of the same role (W1); every option the constructor accepts is dispatched to '
+      'the map of that name (W2); the theta length allocated for each (option, real/complex, flag) is the same exact polynomial in '
+      'dim, rank as the length the functional accepts for that field (W3); no dtype test is constantly false (K3). Membership of '
+      'the returned point in the manifold for all theta is value-level and NOT decided.',
+      'Trusted: role table {cayley_order->order, euler_with_phase->with_phase}; exact polynomial arithmetic over Q with //2 rewritten '
+      'only for always-even numerators.',
+      'ast call binding by parameter name + symbolic evaluation of constructor/functional length formulas to exact polynomials',
+      'DESIGN.md 4 (W, K), 5 C01')
+claim('C02',
+      'Decides three necessary conditions of "locally onto": the allocated parameter count is >= the manifold dimension for every '
+      '2<=dim<=12, 1<=rank<=dim and equal to it for the charts the property lists as exact (W4); theta is written into a Gell-Mann '
+      'field that the following .imag/.real projection keeps - a parameter placed only in discarded fields makes the map constant '
+      '(G2, symbolic field typing of concat segments); theta reaches the functional at all (W1). Full rank of the Jacobian is '
+      'value-level and NOT decided.',
+      'W4 is a bounded grid check of exact polynomials, not a proof for all dim; the manifold-dimension table is taken from the '
+      'property statement.',
+      'symbolic width typing of Gell-Mann coefficient vectors against the record layout [S|A|D|I]; exact polynomial parameter counts',
+      'DESIGN.md 4 (W, G), 5 C02')
+claim('C16',
+      'Decides the layout clauses: the basis stacking order, gellmann_matrix arms, analysis concat order and synthesis slices / '
+      'off-diagonal placement of numqi.gellmann agree with each other and with the documented order in both backends (G1); every '
+      'producer in the package that feeds a projected synthesis respects the layout (G2, 10 sites typed symbolically); the cached '
+      'basis array handed out by all_gellmann_matrix is never mutated (O1). Orthogonality, exact round trip and float32 behaviour '
+      'are value-level and NOT decided.',
+      'Trusted: projection semantics (.imag keeps the antisymmetric field only, .real keeps S, D, I) which follow from G1.',
+      'ast table/slice extraction + symbolic (polynomial) column-range typing',
+      'DESIGN.md 4 (G, O), 5 C16')
 claim('C03',
       'Decides the vocabulary-and-dispatch clauses of the state-vector simulator: every named gate of Circuit binds the operator '
       'its name denotes with the right arity (D2, by literal folding of the numqi.gate constants against canonical matrices); '
@@ -82,7 +114,7 @@ claim('C19',
       'abstract interpretation of literal straight-line gate programs over the Pauli tableau domain; finite exhaustive enumeration of errors below d',
       'DESIGN.md 4 (Q), 5 C19')
 
-for _pid in ['C01', 'C02', 'C06', 'C08', 'C12', 'C13', 'C15', 'C16']:
+for _pid in ['C06', 'C08', 'C12', 'C13', 'C15']:
     na(_pid, 'static rules for this property are designed (DESIGN.md 5) but not yet implemented in this revision; not claimed until they are')
 na('C09', 'bijectivity/counting of the Sp(2n,F2) indexing and the transvection lemma are properties of runtime bit vectors under data-dependent branching; no code-shape clause of substance')
 na('C14', 'group axioms of computed Cayley tables, partition and tableau counts are value-level combinatorics; only a 4x4 literal is visible statically')
